@@ -88,7 +88,7 @@ def parseOps (k : Kind) (nReaders : Nat) : List (List String) → Option (List (
     let v ← parseVal k v
     let r ← parseOps k nReaders rest
     -- LongHistogram::Record takes uint64_t; DoubleHistogram::Record drops `value < 0` (sync_instruments.cc)
-    if v < 0 then (if k = .long then none else pure r) else pure (Op.record a v :: r)
+    if instrumentRecords v then pure (Op.record a v :: r) else (if k = .long then none else pure r)
   | ["col", i] :: rest => do
     let i ← i.toNat?
     if i < nReaders then (parseOps k nReaders rest).map (Op.collect i :: ·) else none
